@@ -216,6 +216,9 @@ func Load(repoDir, tags, goos string) (*Prog, error) {
 	}
 	resolveRoles(p.Pkgs)
 	for _, pkg := range p.PkgList {
+		normalizeIterCalls(pkg)
+	}
+	for _, pkg := range p.PkgList {
 		for _, f := range pkg.Syntax {
 			for _, d := range f.Decls {
 				fd, ok := d.(*ast.FuncDecl)
